@@ -283,6 +283,8 @@ PROPERTIES = {
                    'fragments:Fragments.insert', 'fragments:Fragments.tobytes',
                    # the reference point of relative positions: every field runs with innermost-pkt-pos = start of ITS packet
                    'packet:Packet.unpack_impl', 'packet:Packet.pack_impl',
+                   # the reference point "start of the data": the entry points hand buffer / offset on unchanged (no re-basing)
+                   'packet:Packet.unpack', 'packet:Packet.pack',
                    # how .at() / .shift() / .aligned() / the class-wide align option become Move pseudo-fields of the table
                    'field:Field.at', 'field:Field.shift', 'field:Field.aligned', 'structural_fields:Move.__init__',
                    'field:Field._describe_yourself', 'structural_fields:Sequence._compile'],
